@@ -410,13 +410,26 @@ impl TP {
     }
 }
 
-/// ModelProto with initializers `tps`, `y = Identity(c)`, output `y`.
-fn onnx_model(tps: &[TP], extra_nodes: &[onnx_enc::Node]) -> Vec<u8> {
+/// ModelProto with initializers `tps`, `y = Identity(c)`, output `y`.  With `as_const_op` the
+/// first tensor is not an initializer but the `value` attribute of a `Constant` node whose
+/// output is `c` (`load_constant_from_constant_op` → the same `load_constant`).
+fn onnx_model(tps: &[TP], as_const_op: bool) -> Vec<u8> {
     let mut g = Vec::new();
-    f_bytes(&mut g, 1, &onnx_enc::Node::new("Identity", "id", &["c"], &["y"]).encode());
-    for n in extra_nodes {
-        f_bytes(&mut g, 1, &n.encode());
+    let mut tps = tps;
+    if as_const_op {
+        let mut attr = Vec::new();
+        f_str(&mut attr, 1, "value");
+        f_bytes(&mut attr, 5, &tps[0].encode());
+        f_i64(&mut attr, 20, 4); // AttributeType::TENSOR
+        let mut node = Vec::new();
+        f_str(&mut node, 2, "c");
+        f_str(&mut node, 3, "const_node");
+        f_str(&mut node, 4, "Constant");
+        f_bytes(&mut node, 5, &attr);
+        f_bytes(&mut g, 1, &node);
+        tps = &tps[1..];
     }
+    f_bytes(&mut g, 1, &onnx_enc::Node::new("Identity", "id", &["c"], &["y"]).encode());
     f_str(&mut g, 2, "g");
     for t in tps {
         f_bytes(&mut g, 5, &t.encode());
@@ -573,12 +586,14 @@ fn case_onnx(rng: &mut Rng, k: usize) -> Case {
     buckets.push(format!("onnx:dtype:{dt_name}"));
     buckets.push(format!("onnx:dims:{dkind}"));
     buckets.push(format!("onnx:src:{src_kind}"));
+    let as_const_op = k % 7 == 6;
+    buckets.push(format!("onnx:as:{}", if as_const_op { "constant-op" } else { "initializer" }));
     // a second, valid initializer so the rest of the model is non-trivial
     let k2 = TP { name: "k".into(), dims: vec![2], dtype: Some(1), raw: Some(vec![0; 8]), ..Default::default() };
     Case {
         req,
         fmt: Fmt::Onnx,
-        bytes: onnx_model(&[tp, k2], &[]),
+        bytes: onnx_model(&[tp, k2], as_const_op),
         ext: ext_bufs,
         answer: Answer::Constant,
         buckets,
@@ -957,6 +972,9 @@ fn sample_files() -> Vec<Vec<u8>> {
 }
 
 fn case_fuzz(rng: &mut Rng, k: usize) -> Case {
+    if k % 40 == 7 {
+        return case_bad_ids(rng, k);
+    }
     let samples = sample_files();
     let base_kind = k % 6;
     let (mut bytes, ext, fmt, base): (Vec<u8>, Vec<(String, Vec<u8>)>, Fmt, &str) = match base_kind {
@@ -1017,6 +1035,31 @@ fn case_fuzz(rng: &mut Rng, k: usize) -> Case {
     }
 }
 
+/// Valid flatbuffers whose node references are out of range.
+fn case_bad_ids(rng: &mut Rng, k: usize) -> Case {
+    let consts = vec![
+        RConst { name: "a".into(), dims: vec![2], data: RData::Inline(0, 2) },
+        RConst { name: "b".into(), dims: vec![2], data: RData::Inline(0, 2) },
+    ];
+    let bad = *rng.pick(&[4u32, 5, 100, i32::MAX as u32, i32::MAX as u32 + 1, u32::MAX, u32::MAX - 1, 0, 1, 3]);
+    let (what, fb) = match rng.below(3) {
+        0 => ("graph-output", rten_flatbuffer(&consts, &[(ROp::Add, vec![0, 1])], 1, Some(bad))),
+        1 => ("op-input", rten_flatbuffer(&consts, &[(ROp::Add, vec![0, bad as i32])], 1, None)),
+        _ => ("op-input+output", rten_flatbuffer(&consts, &[(ROp::Add, vec![bad as i32, 1]), (ROp::Relu, vec![bad as i32])], 1, Some(bad))),
+    };
+    let bytes = if rng.chance(1, 2) { rten_v2(&fb, &[]) } else { fb };
+    Case {
+        req: format!("# ids {what} id={bad} k={k}"),
+        fmt: Fmt::Rten,
+        bytes,
+        ext: vec![],
+        answer: Answer::Class,
+        buckets: vec![format!("ids:{what}")],
+        nontrivial: true,
+        via_file: false,
+    }
+}
+
 fn case_header(rng: &mut Rng, k: usize) -> Case {
     let mut f = valid_rten(rng, true);
     let flen0 = f.len() as u64;
@@ -1051,6 +1094,15 @@ fn case_header(rng: &mut Rng, k: usize) -> Case {
 fn case_probe(_rng: &mut Rng, k: usize) -> Case {
     use onnx_enc::{dt, Attr, Graph, Node, Tensor, ValueInfo};
     let (name, g): (&str, Graph) = match k % 4 {
+        3 => (
+            "range_0_2^31",
+            Graph {
+                nodes: vec![Node::new("Range", "r", &["a", "b", "c"], &["y"])],
+                initializers: vec![Tensor::i32s("a", &[], &[0]), Tensor::i32s("b", &[], &[i32::MAX]), Tensor::i32s("c", &[], &[1])],
+                outputs: vec![ValueInfo::new("y", dt::INT32, None)],
+                ..Default::default()
+            },
+        ),
         0 => (
             "constant_of_shape_2^31x2^31",
             Graph {
@@ -1061,15 +1113,6 @@ fn case_probe(_rng: &mut Rng, k: usize) -> Case {
             },
         ),
         1 => (
-            "range_0_2^31",
-            Graph {
-                nodes: vec![Node::new("Range", "r", &["a", "b", "c"], &["y"])],
-                initializers: vec![Tensor::i32s("a", &[], &[0]), Tensor::i32s("b", &[], &[i32::MAX]), Tensor::i32s("c", &[], &[1])],
-                outputs: vec![ValueInfo::new("y", dt::INT32, None)],
-                ..Default::default()
-            },
-        ),
-        2 => (
             "expand_to_2^20x2^20",
             Graph {
                 nodes: vec![Node::new("Expand", "e", &["x", "s"], &["y"])],
@@ -1081,7 +1124,7 @@ fn case_probe(_rng: &mut Rng, k: usize) -> Case {
         _ => (
             "tile_2^31",
             Graph {
-                nodes: vec![Node::new("Tile", "t", &["x", "r"], &["y"]).attr("unused", Attr::Int(0))],
+                nodes: vec![Node::new("Tile", "t", &["x", "r"], &["y"])],
                 initializers: vec![Tensor::f32s("x", &[4], &[1.0, 2.0, 3.0, 4.0]), Tensor::i64s("r", &[1], &[1 << 31])],
                 outputs: vec![ValueInfo::new("y", dt::FLOAT, None)],
                 ..Default::default()
@@ -1120,7 +1163,7 @@ fn plan(thorough: bool) -> Vec<(Cat, usize)> {
         (Cat::RtenStored, 6000 * m),
         (Cat::Header, 1500 * m),
         (Cat::Fuzz, 12000 * m),
-        (Cat::Probe, if std::env::var("C05_PROBES").is_ok() { 4 } else { 0 }),
+        (Cat::Probe, if thorough { 4 } else { 3 }),
     ]
 }
 
@@ -1305,6 +1348,18 @@ fn run_case(case: &Case, idx: usize, tmp: &str) -> Res {
             }
         }
     }
+    // models from mutated files: try to run them without inputs.  A panic here is not a C05
+    // failure (running is C02/C04 territory) but is reported in the histogram.
+    if let (Ok(Ok(model)), Answer::Class) = (&r, case.answer) {
+        let outs = model.output_ids().to_vec();
+        if !case.req.starts_with("# probe") {
+            match catch(|| model.run(vec![], &outs, None).map(|_| ())) {
+                Ok(Ok(())) => extra.push("run:ok".into()),
+                Ok(Err(_)) => extra.push("run:err".into()),
+                Err(m) => extra.push(format!("run:panic:{}", m.chars().take(60).collect::<String>().replace(',', ";"))),
+            }
+        }
+    }
     drop(r);
     match case.answer {
         Answer::Header => {
@@ -1422,7 +1477,7 @@ fn main() {
     let mut from = 0usize;
     let mut rounds = 0;
     let mut peak = String::new();
-    let stall = std::time::Duration::from_secs(if args.thorough { 60 } else { 30 });
+    let stall = std::time::Duration::from_secs(if args.thorough { 60 } else { 20 });
     while from < total {
         rounds += 1;
         let res_path = format!("{tmp}/res_{from}.txt");
@@ -1493,7 +1548,7 @@ fn main() {
             }
         };
         let detail = match what.as_str() {
-            "hang" => "loading did not finish (no progress for 30 s)".to_string(),
+            "hang" => "loading did not finish (no progress for 20 s / 60 s thorough)".to_string(),
             "alloc" => "loading allocated more than 2 GiB for a tiny file".to_string(),
             _ => format!("the process died while loading ({what})"),
         };
